@@ -266,6 +266,13 @@ impl World {
     }
 
     pub async fn start_cfg(role: Role, limit: u16, how: LimitHow, write_hw: usize, peer_max: Option<u32>, tweak: &dyn Fn(&mut Cfg)) -> Result<World, Failure> {
+        Self::start_pre(role, limit, how, write_hw, peer_max, tweak, &[]).await
+    }
+
+    /// `pre` (server roles): sink futures the application creates and polls once while its handshake service is
+    /// still running (the send window is not established yet, they park); `true` = dropped again at once.  The
+    /// survivors are ordinary slots of the world.
+    pub async fn start_pre(role: Role, limit: u16, how: LimitHow, write_hw: usize, peer_max: Option<u32>, tweak: &dyn Fn(&mut Cfg), pre: &[(SendKind, bool)]) -> Result<World, Failure> {
         let mut cfg = limit_cfg(role, limit, how);
         let peer_max = if role.is_v5() { peer_max } else { None };
         cfg.v5.connect.max_packet_size = peer_max;
@@ -274,7 +281,43 @@ impl World {
         cfg.v3.write_hw = write_hw;
         cfg.v5.write_hw = write_hw;
         let eut = Eut::start(role, &cfg).await;
+        let early = role.is_server() && !pre.is_empty();
+        if early {
+            eut.app().hold(G_HS, 0);
+        }
         eut.handshake(&cfg).await;
+        let mut early_slots: Vec<Slot> = Vec::new();
+        if early {
+            if eut.credit().is_none() {
+                return Err(Failure::new("harness-handshake", "harness/handshake", "sink not available inside the handshake service".to_string()));
+            }
+            for (k, (kind, drop_it)) in pre.iter().enumerate() {
+                // slot index = tag in the topic
+                let mut fut = if *kind == SendKind::NoBlock {
+                    Box::pin(async { SendRes::Err(SendErr::NotReady) }) as BoxFut<SendRes>
+                } else {
+                    eut.send(SendSpec { kind: *kind, topic: tag_topic(k), payload: vec![k as u8; 1 + k % 3], pid: None, user_prop: None })
+                };
+                let r = poll_once(&mut fut).await;
+                let mut slot = Slot::new(*kind, fut, 0);
+                slot.first_polled = Some(0);
+                if *kind == SendKind::NoBlock {
+                    // the non-blocking API is not called on a sink that is not ready
+                    slot.fut = None;
+                    slot.dropped = true;
+                } else if let Some(r) = r {
+                    slot.fut = None;
+                    slot.resolved = Some(0);
+                    slot.result = Some(r);
+                } else if *drop_it {
+                    slot.fut = None;
+                    slot.dropped = true;
+                }
+                early_slots.push(slot);
+            }
+            eut.app().open(G_HS, 0);
+            eut.settle().await;
+        }
         if eut.done().is_some() || eut.credit().is_none() {
             return Err(Failure::new("harness-handshake", "harness/handshake", format!("handshake failed: {:?}", eut.done())));
         }
@@ -284,7 +327,7 @@ impl World {
         Ok(World {
             eut,
             limit: usize::from(limit),
-            slots: Vec::new(),
+            slots: early_slots,
             seen,
             requests: Vec::new(),
             unanswered: VecDeque::new(),
